@@ -117,6 +117,21 @@ fn p_encode_drop() {
     kani::cover!(is_ok, "ok");
     kani::cover!(!is_ok, "err");
 }
+struct Zd;
+impl Drop for Zd { fn drop(&mut self) { unsafe { DROPS += 1 } } }
+#[kani::proof]
+fn p_encode_zst_payload() {
+    // a zero-sized success value WITH a destructor is moved into the slot like any other value
+    let res: Result<Zd, Code> = Ok(Zd);
+    let mut out = MaybeUninit::<Zd>::uninit();
+    let code = into_int_out_result(res, &mut out);
+    assert!(code == 0, "C13 Ok encodes to 0");
+    assert!(drops() == 0, "C13 the zero-sized success value is moved into the slot, not destroyed in transit");
+    let back: Result<Zd, Code> = unsafe { from_int_result(code, out) };
+    assert!(back.is_ok() && drops() == 0, "C13 decoding moves it out without dropping");
+    drop(back);
+    assert!(drops() == 1, "C13 the success value is dropped exactly once");
+}
 #[kani::proof]
 fn p_encode_plain() {
     let e = any_code();
